@@ -252,6 +252,65 @@ def repeat_scope(R, ctx):
              "`until x` no longer sees `local x` declared in the body" if renests and not mentions_cond else "condition handled / body not re-nested")
 
 
+def format_specifier(R, ctx):
+    """Sibling-table agreement inside remove_interpolated_string: `%s` only accepts strings/numbers in Lua 5.1 and Luau."""
+    import re
+    rid = "C06.tostring"
+    lib = ctx.lib
+    PROC = "rules::remove_interpolated_string::RemoveInterpolatedStringProcessor"
+    STRAT = "rules::remove_interpolated_string::ReplacementStrategy"
+    R.rule(rid, "RemoveInterpolatedStringProcessor::replace_with has two tables over ReplacementStrategy: the format specifier written for a value "
+                "segment and how the value is passed. Lua 5.1 / Luau `string.format('%s', v)` raises for booleans, nil, tables: for every strategy "
+                "whose specifier is `%s` every arm that passes the value must wrap it in a `tostring(..)` call (FunctionCall::from_name(..)"
+                ".with_argument(value)), without a guard letting some values through bare; only `%*` may take the bare value")
+    fn = lib.fn(PROC + "::replace_with")
+    if not R.require(rid, "anchor", fn is not None, "", "replace_with not found"):
+        return
+    fa = ctx.an.fa(fn["path"])
+    spec, pass_tables = {}, []
+    for n in thir.walk(thir.body_of(fn)):
+        if n.get("k") != "Match" or (PROC, "strategy") not in fa.origins(n["scrut"]):
+            continue
+        lits = {}
+        for arm in n["arms"]:
+            bl = [re.findall(r"\d+", x["v"].split("]")[0]) for x in thir.walk(arm["body"]) if x.get("k") == "Lit" and str(x.get("v", "")).startswith("ByteStr(")]
+            if bl:
+                for v in thir.pat_variants(arm["pat"]):
+                    lits[v[1]] = bytes(int(b) for b in bl[0]).decode("latin-1")
+        if lits:
+            spec.update(lits)
+        else:
+            pass_tables.append(n)
+    R.require(rid, "anchor:specifier-table", "%s" in spec.values() and len(spec) >= 2, ctx.where(fn), "specifier table: %s" % spec)
+    R.require(rid, "anchor:value-table", len(pass_tables) >= 1, ctx.where(fn), "%d matches over self.strategy that pass the value" % len(pass_tables))
+    variants = [v["name"] for v in lib.adts[STRAT]["variants"]]
+    for n in pass_tables:
+        for var in variants:
+            if spec.get(var) == "%*":
+                continue
+            arms = [a for a in n["arms"] if (STRAT, var) in thir.pat_variants(a["pat"]) or thir.pat_is_catchall(a["pat"])]
+            ok = bool(arms)
+            why = []
+            for a in arms:
+                wraps = [c for c in thir.walk(a["body"]) if c.get("k") == "Call" and c.get("fname") == "with_argument"
+                         and any(x.get("fname") == "from_name" and (thir.callee_of(x) or "").endswith("FunctionCall::from_name") for x in thir.walk(c["args"][0]))]
+                if not wraps and "guard" in a:
+                    # a guarded bare arm is harmless only when the guard admits nothing but values `%s` accepts
+                    gbody = [a["guard"]]
+                    for c in thir.walk(a["guard"]):
+                        q = lib.fn(thir.callee_of(c) or "") if c.get("k") == "Call" else None
+                        if q is not None and thir.body_of(q):
+                            gbody.append(thir.body_of(q))
+                    sets = [vs for b in gbody for _m, vs in tables.guard_variant_sets(lib, b, "nodes::expressions::Expression")]
+                    if len(sets) == 1 and sets[0] and sets[0] <= {"String", "Number", "InterpolatedString"}:
+                        continue
+                    ok = False; why.append("guarded arm at line %s passes %s without tostring" % (a.get("ln", a["body"].get("ln")), sorted(sets[0]) if len(sets) == 1 else "some values"))
+                elif not wraps:
+                    ok = False; why.append("arm at line %s passes the value without tostring" % a.get("ln", a["body"].get("ln")))
+            R.ob(rid, "wraps|%s|specifier=%s" % (var, spec.get(var, "?")), ok, ctx.where(fn, n.get("ln")),
+                 "every arm for %s wraps the value in tostring(..)" % var if ok else "; ".join(why) + ": string.format('%s', true/nil/{}) raises in Lua 5.1 and Luau")
+
+
 def run(R, ctx):
     R.explanation = (
         "Structural necessary conditions of the lowering rules on typed THIR: subset relation between the duplicated-without-temporary "
@@ -267,3 +326,4 @@ def run(R, ctx):
     box(R, ctx)
     fresh(R, ctx)
     repeat_scope(R, ctx)
+    format_specifier(R, ctx)
